@@ -672,13 +672,14 @@ class Plucker(SMUserList):
             s = 1 if np.dot(l1.w, l2.w) > 0 else -1
             l = np.linalg.norm(l1.v / np.linalg.norm(l1.w) - s * l2.v / np.linalg.norm(l2.w))
         else:
-            # lines are not parallel
-            if abs(l1 * l2) < 10*_eps:
+            # lines are not parallel, reciprocal product of the normalised lines
+            rp = np.dot(l1.uw, l2.v) / np.linalg.norm(l2.w) + np.dot(l2.uw, l1.v) / np.linalg.norm(l1.w)
+            if abs(rp) < 10*_eps:
                 # lines intersect at a point
                 l = 0
             else:
                 # lines don't intersect, find closest distance
-                l = abs(l1 * l2) / np.linalg.norm(np.cross(l1.uw, l2.uw))
+                l = abs(rp) / np.linalg.norm(np.cross(l1.uw, l2.uw))
         return l
 
     
